@@ -114,6 +114,17 @@ def reshape {α : Type} (a : Arr α) (s : List Nat) : Res (Arr α) :=
   else if s ≠ [] ∧ s.head? = a.shape.head? then .ok ⟨s, a.rows⟩
   else .unmodelled "reshape that does not keep the leading axis"
 
+/-- `a.squeeze()`: numpy removes EVERY axis of extent 1 — the leading one too.  When the leading axis
+has extent 1 the result no longer has one row per node / edge (the historical defect D10 of the
+export); that case is outside what `Arr` can describe and is reported as such, so that a source
+which squeezes the whole array cannot be proved equal to the model. -/
+def squeeze {α : Type} (a : Arr α) : Res (Arr α) :=
+  match a.shape with
+  | [] => .ok a
+  | n :: trail =>
+    if n = 1 then .unmodelled "squeeze() removes the leading axis of a one-row array"
+    else .ok ⟨n :: trail.filter (fun d => d ≠ 1), a.rows⟩
+
 /-- `a[:, i]` -/
 def sliceCol {α : Type} (a : Arr α) (i : Nat) : Res (List α) :=
   if a.shape.length < 2 then .indexError
